@@ -13,18 +13,29 @@ import BronVerif.Lemmas.SharingExamples
 import BronVerif.Lemmas.SharingLCW
 import Mathlib.LinearAlgebra.Matrix.NonsingularInverse
 import Mathlib.Tactic.IntervalCases
+import Mathlib.Tactic.FinCases
 import BronVerif.Model.Access
 import BronVerif.Model.Sharing
 import BronVerif.Lemmas.SharingSpan
 import BronVerif.Lemmas.SharingPoly
+import BronVerif.Lemmas.SharingThreshold
+import BronVerif.Lemmas.SharingTree
+import BronVerif.Lemmas.SharingHier
+import BronVerif.Lemmas.SharingDeal
+import BronVerif.Lemmas.SharingPrivacy
+import BronVerif.Lemmas.SharingClause
+import BronVerif.Lemmas.SharingBirkhoff
 /-!
 # C02 — exactly the qualified sets can reconstruct; unqualified sets learn nothing
 
 Property theorems.  The span-programme statements are about an arbitrary matrix `M : Matrix ρ δ F`
 over an arbitrary field with target `e_z` (`Pi.single z 1`); `Model/Sharing.lean` instantiates them
 (`MSP.deal = M·r`, `MSP.reconVector` = a solution `c` of `c·M_S = e₀`, …).  The per-family
-"accepted iff qualified" theorems are about the Mathlib form of the matrices that
-`Model/Access.lean` (`thresholdMSP`, `unanimityMSP`, `cnfMSP`) builds, see the doc comments.
+"accepted iff qualified" theorems come in two forms: about the Mathlib form of the matrices that
+`Model/Access.lean` (`thresholdMSP`, `unanimityMSP`, `cnfMSP`) builds (see the doc comments), and —
+`model_accepts_iff_qualified_threshold`, `lcw_holds` / `model_accepts_iff_qualified_tree` — about the
+executable definitions the driver runs (`thresholdMSP`, `treeMSP`, `MSP.accepts` with the mirrored
+Gauss–Jordan solver whose soundness and completeness are `Props.C20.solveLeft_sound/complete`).
 -/
 namespace BronVerif.Props.C02
 open Matrix BigOperators Polynomial
@@ -190,6 +201,66 @@ example : ∃ c : (({1, 3} : Finset ℕ)) → ZMod 7,
     simp only [Finset.mem_insert, Finset.mem_singleton] at hi
     rcases hi with rfl | rfl | rfl <;> decide
 
+/-- **Threshold, for the executable model.** Under the constructor's guards
+(`Policy.validate`: no ID 0, `2 ≤ t ≤ n`), for shareholder IDs that are distinct and non-zero as
+field elements, the span programme the driver builds (`Model.Access.thresholdMSP`, mirror of
+`threshold.InducedMSP`) and tests with the mirrored solver (`MSP.accepts` = `solveLeft` against
+`e₀`, sound and complete by `Props.C20.solveLeft_sound/complete`) accepts a set `S` of shareholders
+iff the policy declares it qualified (`Policy.isQualified`: at least `t` distinct members). -/
+theorem model_accepts_iff_qualified_threshold {F : Type} [Field F] [DecidableEq F] (t : ℕ)
+    (ids S : List ℕ) (hv : (BronVerif.Access.Policy.threshold t ids).validate = .ok ())
+    (hid : Set.InjOn (Nat.cast : ℕ → F) {i | i ∈ ids}) (h0 : ∀ i ∈ ids, (i : F) ≠ 0)
+    (hS : ∀ i ∈ S, i ∈ ids) :
+    (BronVerif.Access.thresholdMSP (F := F) t ids).accepts S =
+      (BronVerif.Access.Policy.threshold t ids).isQualified S := by
+  have ht : 2 ≤ t := by
+    simp only [BronVerif.Access.Policy.validate] at hv
+    by_contra hlt
+    have : t < 2 := by omega
+    split_ifs at hv
+  rw [BronVerif.Lemmas.SharingThreshold.thresholdMSP_accepts t ids S (by omega) hid h0 hS]
+  unfold BronVerif.Access.Policy.isQualified
+  have hsub : BronVerif.Access.subset (BronVerif.Access.dedup S) ids = true := by
+    unfold BronVerif.Access.subset
+    rw [List.all_eq_true]
+    intro x hx
+    rw [List.contains_iff_mem]
+    exact hS x (BronVerif.Lemmas.SharingThreshold.mem_dedup.mp hx)
+  simp only [hsub, Bool.and_true]
+
+/-- the same with the size written out: accepted iff `t ≤ |S|` (distinct members) -/
+theorem model_accepts_threshold_card {F : Type} [Field F] [DecidableEq F] (t : ℕ)
+    (ids S : List ℕ) (ht : 0 < t)
+    (hid : Set.InjOn (Nat.cast : ℕ → F) {i | i ∈ ids}) (h0 : ∀ i ∈ ids, (i : F) ≠ 0)
+    (hS : ∀ i ∈ S, i ∈ ids) :
+    (BronVerif.Access.thresholdMSP (F := F) t ids).accepts S =
+      decide (t ≤ (BronVerif.Access.dedup S).length) :=
+  BronVerif.Lemmas.SharingThreshold.thresholdMSP_accepts t ids S ht hid h0 hS
+
+/-- non-vacuity: (2,3) over `ZMod 7`, ids `[1,2,3]`: `[1,3]` is accepted -/
+example : (BronVerif.Access.thresholdMSP (F := ZMod 7) 2 [1, 2, 3]).accepts [1, 3] = true := by
+  rw [model_accepts_iff_qualified_threshold (F := ZMod 7) 2 [1, 2, 3] [1, 3] (by decide) ?_ ?_ (by decide)]
+  · decide
+  · intro a ha b hb h
+    simp only [List.mem_cons, List.not_mem_nil, or_false, Set.mem_ofPred_eq] at ha hb
+    rcases ha with rfl | rfl | rfl <;> rcases hb with rfl | rfl | rfl <;>
+      first | rfl | (exfalso; revert h; decide)
+  · intro i hi
+    simp only [List.mem_cons, List.not_mem_nil, or_false] at hi
+    rcases hi with rfl | rfl | rfl <;> decide
+
+/-- … and `[2]` is rejected -/
+example : (BronVerif.Access.thresholdMSP (F := ZMod 7) 2 [1, 2, 3]).accepts [2] = false := by
+  rw [model_accepts_threshold_card (F := ZMod 7) 2 [1, 2, 3] [2] (by decide) ?_ ?_ (by decide)]
+  · decide
+  · intro a ha b hb h
+    simp only [List.mem_cons, List.not_mem_nil, or_false, Set.mem_ofPred_eq] at ha hb
+    rcases ha with rfl | rfl | rfl <;> rcases hb with rfl | rfl | rfl <;>
+      first | rfl | (exfalso; revert h; decide)
+  · intro i hi
+    simp only [List.mem_cons, List.not_mem_nil, or_false] at hi
+    rcases hi with rfl | rfl | rfl <;> decide
+
 /-- **Shamir reconstruction**: Lagrange interpolation at zero over any `≥ t` distinct nodes returns
 the constant term of a polynomial of degree `< t` (`shamir.Reconstruct`, `Model.Sharing.shamirReconstruct`;
 the summands are the additive shares of `Share.ToAdditive`). -/
@@ -282,6 +353,99 @@ example : ∃ c : Option (Fin 2) → ZMod 7, (∀ r ∉ (Finset.univ : Finset (O
     c ᵥ* clauseMatrix (fun r : Option (Fin 2) => r) = Pi.single none 1 :=
   (accepts_iff_qualified_unanimity _).mpr rfl
 
+/-! ### the same for the executable model -/
+
+open BronVerif.Access in
+/-- **Unanimity, for the executable model**: under the constructor's guards (at least two distinct
+IDs) the programme `unanimityMSP` the driver builds (mirror of `unanimity.InducedMSP`) accepts a set
+`S` of shareholders, as decided by the mirrored solver, iff the policy declares it qualified (`S`
+is everybody).  No hypothesis on the field. -/
+theorem model_accepts_iff_qualified_unanimity {F : Type} [Field F] [DecidableEq F] (ids S : List ℕ)
+    (hv : (Policy.unanimity ids).validate = .ok ()) (hS : ∀ i ∈ S, i ∈ ids) :
+    (unanimityMSP (F := F) ids).accepts S = (Policy.unanimity ids).isQualified S := by
+  have hlen : 2 ≤ (dedup ids).length := by
+    simp only [Policy.validate] at hv
+    by_contra hlt
+    have : (dedup ids).length < 2 := by omega
+    split_ifs at hv
+  have hn : 0 < (sortedSet ids).length := by
+    rw [BronVerif.Lemmas.SharingThreshold.length_sortedSet]; omega
+  rw [BronVerif.Lemmas.SharingClause.unanimityMSP_accepts ids S hn hS]
+  unfold Policy.isQualified sameSet subset
+  rw [Bool.eq_iff_iff]
+  simp only [decide_eq_true_iff, Bool.and_eq_true, List.all_eq_true, List.contains_iff_mem,
+    BronVerif.Lemmas.SharingThreshold.mem_dedup]
+  exact ⟨fun h => ⟨hS, h⟩, fun h => h.2⟩
+
+open BronVerif.Access in
+/-- **CNF, for the executable model**: the programme `cnfMSP` the driver builds (mirror of
+`cnf.InducedMSP`: maximal unqualified sets normalised and ordered by bit mask, one row per clause
+member) accepts a set `S` of shareholders iff the policy declares it qualified (`S` is contained in
+no maximal unqualified set) — for sets all of whose members own a row, i.e. lie outside some maximal
+unqualified set.  (A shareholder inside every maximal unqualified set owns no row and no set
+containing it is accepted: the recorded finding `holder-without-rows`; the hypothesis `hrows` is
+exactly its boundary.)  No hypothesis on the field. -/
+theorem model_accepts_iff_qualified_cnf {F : Type} [Field F] [DecidableEq F] (sets : List (List ℕ))
+    (S : List ℕ) (hne : cnfNormalise sets ≠ [])
+    (hS : ∀ id ∈ S, id ∈ (cnfNormalise sets).flatten)
+    (hrows : ∀ id ∈ S, ∃ u ∈ cnfNormalise sets, id ∉ u) :
+    (cnfMSP (F := F) sets).accepts S = (Policy.cnf sets).isQualified S := by
+  rw [BronVerif.Lemmas.SharingClause.cnfMSP_accepts sets S hne hS hrows]
+  unfold Policy.isQualified subset
+  rw [Bool.eq_iff_iff]
+  simp only [decide_eq_true_iff, Bool.and_eq_true, List.all_eq_true, List.contains_iff_mem,
+    BronVerif.Lemmas.SharingThreshold.mem_dedup, Bool.not_eq_eq_eq_not,
+    Bool.not_true, List.all_eq_false]
+  constructor
+  · intro h
+    refine ⟨hS, fun u hu => ?_⟩
+    obtain ⟨id, hid, hnot⟩ := h u hu
+    exact ⟨id, hid, hnot⟩
+  · rintro ⟨-, h⟩ u hu
+    obtain ⟨id, hid, hnot⟩ := h u hu
+    exact ⟨id, hid, hnot⟩
+
+/-- non-vacuity: unanimity over `[1,2,3]`, field `ZMod 7`: everybody together is accepted, `[1,3]` is not -/
+example : (BronVerif.Access.unanimityMSP (F := ZMod 7) [1, 2, 3]).accepts [3, 1, 2] = true := by
+  rw [model_accepts_iff_qualified_unanimity (F := ZMod 7) [1, 2, 3] [3, 1, 2] (by decide) (by decide)]
+  decide
+
+example : (BronVerif.Access.unanimityMSP (F := ZMod 7) [1, 2, 3]).accepts [1, 3] = false := by
+  rw [model_accepts_iff_qualified_unanimity (F := ZMod 7) [1, 2, 3] [1, 3] (by decide) (by decide)]
+  decide
+
+/-- the maximal unqualified sets `{1,2}`, `{2,3}` are already normalised -/
+theorem cnfNormalise_example :
+    BronVerif.Access.cnfNormalise [[1, 2], [2, 3]] = [[1, 2], [2, 3]] := by
+  have h12 : BronVerif.Access.sortedSet [1, 2] = [1, 2] :=
+    BronVerif.Lemmas.SharingThreshold.sortedSet_of_sorted _ (by decide) (by decide)
+  have h23 : BronVerif.Access.sortedSet [2, 3] = [2, 3] :=
+    BronVerif.Lemmas.SharingThreshold.sortedSet_of_sorted _ (by decide) (by decide)
+  unfold BronVerif.Access.cnfNormalise
+  simp only [List.foldl_cons, List.foldl_nil, List.any_nil, Bool.false_eq_true, if_false,
+    List.nil_append, h12]
+  have : ([[1, 2]] : List (List ℕ)).any (BronVerif.Access.sameSet [2, 3]) = false := by decide
+  simp only [this, Bool.false_eq_true, if_false, h23]
+  decide
+
+/-- non-vacuity: CNF with maximal unqualified sets `{1,2}`, `{2,3}` over `ZMod 7`: `{1,3}` lies in
+neither and is accepted; `{1}` lies in the first and is rejected (holder 2, inside both, owns no row) -/
+example : (BronVerif.Access.cnfMSP (F := ZMod 7) [[1, 2], [2, 3]]).accepts [1, 3] = true := by
+  rw [model_accepts_iff_qualified_cnf (F := ZMod 7) [[1, 2], [2, 3]] [1, 3]
+    (by rw [cnfNormalise_example]; decide) (by rw [cnfNormalise_example]; decide)
+    (by rw [cnfNormalise_example]; decide)]
+  unfold BronVerif.Access.Policy.isQualified
+  simp only [cnfNormalise_example]
+  decide
+
+example : (BronVerif.Access.cnfMSP (F := ZMod 7) [[1, 2], [2, 3]]).accepts [1] = false := by
+  rw [model_accepts_iff_qualified_cnf (F := ZMod 7) [[1, 2], [2, 3]] [1]
+    (by rw [cnfNormalise_example]; decide) (by rw [cnfNormalise_example]; decide)
+    (by rw [cnfNormalise_example]; decide)]
+  unfold BronVerif.Access.Policy.isQualified
+  simp only [cnfNormalise_example]
+  decide
+
 /-! ## ISN (replicated additive pieces, one per maximal unqualified set) -/
 
 /-- **ISN reconstruction**: holder `p` knows piece `j` iff `p ∉ T j`; a set contained in no `T j`
@@ -335,8 +499,8 @@ open BronVerif.Access
 
 /-- Full statement for gate trees, about the model's `treeMSP` (= `boolexpr.InducedMSP`): over a
 field in which the child positions `0..n` are distinct, the programme accepts exactly the sets of
-shareholders on which the tree evaluates to true.  **Not proved**; established per instance by the
-C02 driver (all subsets of every generated tree, own solver and own rank computation). -/
+shareholders on which the tree evaluates to true.  **Proved**: `lcw_holds` below (arbitrary nesting of
+AND/OR/threshold gates, shareholders labelling several leaves included). -/
 def lcw_statement (F : Type) [Field F] [DecidableEq F] : Prop :=
   ∀ root : Tree, root.valid = true →
     Set.InjOn (Nat.cast : ℕ → F) (Finset.range (root.size + 1)) →
@@ -346,8 +510,7 @@ def lcw_statement (F : Type) [Field F] [DecidableEq F] : Prop :=
 /-- Proved part of `lcw_statement`: a single threshold gate over leaves at child positions `1..n`
 (the first insertion step of Liu–Cao–Wong; `t = 1` is OR, `t = n` is AND).  Its rows are
 `[1, x, …, x^(t-1)]` with `x` the child position, and a set of children spans `e₀` iff it has at
-least `t` members.  Missing for the full statement: the insertion lemma for nested gates (a row is
-replaced by the block `[row | x, …, x^(t-1)]` of its children) and repeated leaves. -/
+least `t` members.  (Kept as the Mathlib-matrix form of one gate; the full statement is `lcw_holds`.) -/
 theorem lcw_single_gate_partial {F : Type*} [Field F] (t n : ℕ) (ht : 0 < t)
     (hinj : Set.InjOn (Nat.cast : ℕ → F) (Finset.Icc 0 n))
     (S : Finset ℕ) (hS : S ⊆ Finset.Icc 1 n) :
@@ -372,11 +535,84 @@ example : ∃ c : (({1, 3} : Finset ℕ)) → ZMod 7,
   obtain ⟨_, hb2⟩ := hb'
   interval_cases a <;> interval_cases b <;> first | rfl | (exfalso; revert h; decide)
 
+/-- **Liu–Cao–Wong, full statement, for the executable model.**  For every gate tree the
+constructor accepts (`Tree.valid`: positive ids, `0 < t ≤ #children`, no repeated leaf under one
+gate) — AND, OR and threshold gates nested to any depth, the same shareholder at any number of
+leaves — over a field in which the child positions `0 … size` are distinct, the programme
+`treeMSP root` that the driver builds (mirror of `boolexpr.convert`, Algorithm 1 of Liu–Cao–Wong)
+accepts a set `S` of shareholders, as decided by the mirrored solver, iff the tree evaluates to
+true on `S`.  Proof: `Lemmas/SharingTree.lean` (semantic invariant over `lcwRun`: the rows whose
+node evaluates to true span `e₀`; one insertion step = `Lemmas/SharingInsert.insert_spans`). -/
+theorem lcw_holds (F : Type) [Field F] [DecidableEq F] : lcw_statement F := by
+  intro root hv hinj S hS
+  have hok := BronVerif.Lemmas.SharingTree.treeOK_of_valid (F := F) root.size hinj root le_rfl hv
+  refine BronVerif.Lemmas.SharingTree.treeMSP_accepts root hok S ?_
+  intro id hid
+  have := (List.all_eq_true.mp hS) id hid
+  simpa using this
+
+/-- the gate-tree programme accepts exactly the qualified sets (`Policy.isQualified` of a tree policy
+is `Tree.eval`) -/
+theorem model_accepts_iff_qualified_tree {F : Type} [Field F] [DecidableEq F] (root : Tree)
+    (hv : (Policy.tree root).validate = .ok ())
+    (hinj : Set.InjOn (Nat.cast : ℕ → F) (Finset.range (root.size + 1)))
+    (S : List ℕ) (hnd : S.Nodup) (hS : ∀ id ∈ S, id ∈ root.leaves) :
+    (treeMSP (F := F) root).accepts S = (Policy.tree root).isQualified S := by
+  have hvalid : root.valid = true := by
+    unfold Policy.validate at hv
+    by_contra h
+    simp [h] at hv
+  have hdd : dedup S = S := by
+    unfold dedup
+    induction S with
+    | nil => rfl
+    | cons a S ih =>
+      rw [List.eraseDups_cons]
+      have ha : a ∉ S := (List.nodup_cons.mp hnd).1
+      have hf : S.filter (fun b => !b == a) = S := by
+        rw [List.filter_eq_self]
+        intro b hb
+        have : b ≠ a := fun h => ha (h ▸ hb)
+        simpa using this
+      rw [hf, ih (List.nodup_cons.mp hnd).2 (fun id hid => hS id (List.mem_cons_of_mem _ hid))]
+  unfold Policy.isQualified
+  simp only [hdd]
+  exact lcw_holds F root hvalid hinj S (List.all_eq_true.mpr fun id hid => by simpa using hS id hid)
+
+/-- non-vacuity: a 2-of-3 gate whose third child is an AND of the (repeated) leaf 1 and leaf 4, over
+`ZMod 7`: `{1,4}` satisfies the tree (leaf 1 and the AND gate) and is accepted -/
+example : (treeMSP (F := ZMod 7) (.gate 2 [.leaf 1, .leaf 2, .gate 2 [.leaf 1, .leaf 4]])).accepts [1, 4]
+    = true := by
+  rw [lcw_holds (ZMod 7) (.gate 2 [.leaf 1, .leaf 2, .gate 2 [.leaf 1, .leaf 4]]) (by decide) ?_ [1, 4]
+    (by decide)]
+  · decide
+  · intro a ha b hb h
+    have ha' : a < 7 := by
+      have : (Tree.gate 2 [.leaf 1, .leaf 2, .gate 2 [.leaf 1, .leaf 4]]).size = 6 := by decide
+      simpa [this] using ha
+    have hb' : b < 7 := by
+      have : (Tree.gate 2 [.leaf 1, .leaf 2, .gate 2 [.leaf 1, .leaf 4]]).size = 6 := by decide
+      simpa [this] using hb
+    interval_cases a <;> interval_cases b <;> first | rfl | (exfalso; revert h; decide)
+
+example : (treeMSP (F := ZMod 7) (.gate 2 [.leaf 1, .leaf 2, .gate 2 [.leaf 1, .leaf 4]])).accepts [1, 4]
+    = true := by decide +kernel
+example : (treeMSP (F := ZMod 7) (.gate 2 [.leaf 1, .leaf 2, .gate 2 [.leaf 1, .leaf 4]])).accepts [4]
+    = false := by decide +kernel
+
 /-- Full statement for hierarchical conjunctive thresholds, about the model's `hierMSP`
 (= `hierarchical.InducedMSP`, Birkhoff–Vandermonde rows) under the constructor's checks and
 `CheckConstraints` for a field with `q` elements.  **Not proved** (it needs Tassa's Theorem 3: the
 field-size condition makes every Birkhoff matrix satisfying Pólya's condition non-singular);
-established per instance by the C02 driver. -/
+established per instance by the C02 driver (op `oracle` and `accepts` on every subset).  Proved
+around it: `hier_qualified_accepted_partial` (accepted, given a non-singular square selection of
+rows), `hier_unqualified_rejected` (every set violating some level threshold is rejected, given a
+kernel vector for its rows of the levels up to the violated one — equivalently
+`kernel_of_det_ne_zero`, given a non-singular completion containing the target row),
+`model_hier_rejects_first_level` (the executable programme rejects every set below the first
+threshold, with no extra hypothesis), `model_accepts_of_det` (the executable programme accepts a set
+whose square row matrix has non-zero determinant), `hier_two_level_unisolvent` (two levels with
+increasing identifiers: non-singular over ℝ). -/
 def hier_statement (F : Type) [Field F] [DecidableEq F] [Fintype F] : Prop :=
   ∀ levels : List (Int × List ℕ), (Policy.hier levels).validate = .ok () →
     hierCheck (Fintype.card F) levels = .ok () →
@@ -411,7 +647,295 @@ theorem hier_qualified_accepted_partial {F : Type*} [Field F] {ρ : Type*} [Fint
 example : ∃ c : Fin 3 → ZMod 7, (∀ i ∉ ({0, 1} : Finset (Fin 3)), c i = 0) ∧ c ᵥ* M23 = Pi.single 0 1 :=
   hier_qualified_accepted_partial M23 0 {0, 1} ![0, 1] (by decide) (by decide)
 
+/-- **Hierarchical, every unqualified set is rejected — the part that needs no Birkhoff theory.**
+`M` is the programme, `S` the rows of a set violating the threshold `t` of some level, `S₀ ⊆ S` its
+rows of derivative order `< t` (members of the levels up to the violated one; fewer than `t` of
+them), `low` the first `t` columns.  The rows of `S \ S₀` have order `≥ t`, so they vanish on the low
+columns (`Lemmas.SharingHier.birkhoffEntry_of_lt` for the model's entries).  If the rows of `S₀`
+have a common kernel vector `k` supported on the low columns with `k_z = 1` — a polynomial of
+degree `< t` with constant term 1 satisfying the fewer than `t` Birkhoff conditions of `S₀`; this
+existence is what Tassa's Theorem 3 supplies under `CheckConstraints`, `kernel_of_det_ne_zero`
+derives it from a non-singular completion that contains the target row — then no combination of
+the rows of `S` gives the target.  Missing for `hier_statement`: the existence of `k` at the levels
+after the first (named gap: Tassa, Theorem 3); for the first level it is unconditional, see
+`model_hier_rejects_first_level`. -/
+theorem hier_unqualified_rejected {F : Type*} [Field F] {ρ δ : Type*} [Fintype ρ] [Fintype δ]
+    [DecidableEq δ] (M : Matrix ρ δ F) (z : δ) (S S₀ : Finset ρ) (low : δ → Prop)
+    (hzero : ∀ r ∈ S, r ∉ S₀ → ∀ j, low j → M r j = 0)
+    (k : δ → F) (hk0 : k z = 1) (hkhigh : ∀ j, ¬ low j → k j = 0)
+    (hker : ∀ r ∈ S₀, M r ⬝ᵥ k = 0) :
+    ¬ ∃ c : ρ → F, (∀ r ∉ S, c r = 0) ∧ c ᵥ* M = Pi.single z 1 := by
+  rintro ⟨c, hsupp, hc⟩
+  have hrow : ∀ r ∈ S, (M *ᵥ k) r = 0 := by
+    intro r hr
+    by_cases hr0 : r ∈ S₀
+    · exact hker r hr0
+    · simp only [mulVec, dotProduct]
+      refine Finset.sum_eq_zero fun j _ => ?_
+      by_cases hl : low j
+      · rw [hzero r hr hr0 j hl, zero_mul]
+      · rw [hkhigh j hl, mul_zero]
+  have h1 : c ⬝ᵥ (M *ᵥ k) = 0 := by
+    simp only [dotProduct]
+    refine Finset.sum_eq_zero fun r _ => ?_
+    by_cases hr : r ∈ S
+    · rw [hrow r hr, mul_zero]
+    · rw [hsupp r hr, zero_mul]
+  rw [dotProduct_mulVec, hc, single_one_dotProduct, hk0] at h1
+  exact one_ne_zero h1
+
+/-- the kernel vector of `hier_unqualified_rejected` from a non-singular completion: if a square
+matrix whose row 0 is the target `e₀` is non-singular (for Birkhoff rows: Tassa's Theorem 3 applied
+to the set together with a phantom dealer node `0` of order 0), there is `k` with `k₀ = 1` that every
+other row annihilates -/
+theorem kernel_of_det_ne_zero {F : Type*} [Field F] {n : ℕ} (N : Matrix (Fin (n + 1)) (Fin (n + 1)) F)
+    (hdet : N.det ≠ 0) (h0 : N 0 = Pi.single 0 1) :
+    ∃ k : Fin (n + 1) → F, k 0 = 1 ∧ ∀ i, i ≠ 0 → N i ⬝ᵥ k = 0 := by
+  have hunit : IsUnit N.det := isUnit_iff_ne_zero.mpr hdet
+  refine ⟨N⁻¹ *ᵥ Pi.single 0 1, ?_, ?_⟩
+  · have h : (N *ᵥ (N⁻¹ *ᵥ Pi.single 0 1)) 0 = 1 := by
+      rw [mulVec_mulVec, Matrix.mul_nonsing_inv N hunit, one_mulVec]; simp
+    simp only [mulVec] at h
+    rw [h0, single_one_dotProduct] at h
+    exact h
+  · intro i hi
+    have h : (N *ᵥ (N⁻¹ *ᵥ Pi.single 0 1)) i = 0 := by
+      rw [mulVec_mulVec, Matrix.mul_nonsing_inv N hunit, one_mulVec]; simp [hi]
+    exact h
+
+/-- non-vacuity: over `ZMod 7`, levels `{1}` (threshold 2) and `{2}` (threshold 3): the rows of the
+set `{1, 2}` are `(1,1,1)` (id 1, order 0) and `(0,0,2)` (id 2, order 2); the set has one member of
+the first level instead of two, the second row vanishes on the first two columns, `k = (1,-1,0)`
+kills the first row: the set is rejected -/
+example : ¬ ∃ c : Fin 2 → ZMod 7, (∀ r ∉ (Finset.univ : Finset (Fin 2)), c r = 0) ∧
+    c ᵥ* (!![1, 1, 1; 0, 0, 2] : Matrix (Fin 2) (Fin 3) (ZMod 7)) = Pi.single 0 1 :=
+  hier_unqualified_rejected _ 0 Finset.univ {0} (fun j => (j : ℕ) < 2)
+    (by
+      intro r _ hr j hj
+      fin_cases r
+      · simp at hr
+      · fin_cases j <;> simp_all)
+    ![1, -1, 0] (by decide)
+    (by intro j hj; fin_cases j <;> simp_all)
+    (by intro r hr; fin_cases r <;> simp_all [dotProduct, Fin.sum_univ_three])
+
+example : ∃ k : Fin 2 → ZMod 7, k 0 = 1 ∧ ∀ i, i ≠ 0 →
+    (!![1, 0; 1, 3] : Matrix (Fin 2) (Fin 2) (ZMod 7)) i ⬝ᵥ k = 0 :=
+  kernel_of_det_ne_zero _ (by decide) (by decide)
+
+/-- **Hierarchical, first level, for the executable model — unconditional.**  Levels
+`(t₀, ids₀) :: rest` with `0 < t₀` and later thresholds at least `t₀` (the constructor demands
+strictly increasing thresholds), shareholder IDs distinct and non-zero as field elements: the
+programme the driver builds (`hierMSP`, mirror of `hierarchical.InducedMSP`) and tests with the
+mirrored solver rejects every set `S` of shareholders that has fewer than `t₀` members of the first
+level.  No field-size condition and no Birkhoff theory is needed for this level. -/
+theorem model_hier_rejects_first_level {F : Type} [Field F] [DecidableEq F] (t0 : Int)
+    (ids0 : List ℕ) (rest : List (Int × List ℕ)) (S : List ℕ) (ht0 : 0 < t0)
+    (hmono : ∀ l ∈ rest, t0 ≤ l.1)
+    (hid : Set.InjOn (Nat.cast : ℕ → F) {i | i ∈ (((t0, ids0) :: rest).map (·.2)).flatten})
+    (h0 : ∀ i : ℕ, i ∈ (((t0, ids0) :: rest).map (·.2)).flatten → (i : F) ≠ 0)
+    (hS : ∀ i ∈ S, i ∈ (((t0, ids0) :: rest).map (·.2)).flatten)
+    (hfew : (S.toFinset ∩ ids0.toFinset).card < t0.toNat) :
+    (hierMSP (F := F) ((t0, ids0) :: rest)).accepts S = false := by
+  refine BronVerif.Lemmas.SharingHier.hierMSP_rejects_first_level t0 ids0 rest S ht0 hmono hid h0 hS ?_
+  have hnd := (BronVerif.Lemmas.SharingThreshold.nodup_sortedSet
+    ((((t0, ids0) :: rest).map (·.2)).flatten)).filter (fun id => S.contains id && ids0.contains id)
+  rw [← List.toFinset_card_of_nodup hnd]
+  refine lt_of_le_of_lt (Finset.card_le_card ?_) hfew
+  intro a ha
+  simp only [List.mem_toFinset, List.mem_filter, Bool.and_eq_true, List.contains_iff_mem] at ha
+  simp only [Finset.mem_inter, List.mem_toFinset]
+  exact ha.2
+
+/-- non-vacuity: levels `{1,2}` (threshold 2) and `{3}` (threshold 3) over `ZMod 7`; the set `{1,3}`
+has one member of the first level and is rejected -/
+example : (hierMSP (F := ZMod 7) [(2, [1, 2]), (3, [3])]).accepts [1, 3] = false := by
+  refine model_hier_rejects_first_level (F := ZMod 7) 2 [1, 2] [(3, [3])] [1, 3] (by decide)
+    (by decide) ?_ ?_ (by decide) (by decide)
+  · intro a ha b hb h
+    simp only [List.map_cons, List.map_nil, List.flatten_cons, List.flatten_nil, List.append_nil,
+      List.cons_append, List.nil_append, List.mem_cons, List.not_mem_nil, or_false,
+      Set.mem_ofPred_eq] at ha hb
+    rcases ha with rfl | rfl | rfl <;> rcases hb with rfl | rfl | rfl <;>
+      first | rfl | (exfalso; revert h; decide)
+  · intro i hi
+    simp only [List.map_cons, List.map_nil, List.flatten_cons, List.flatten_nil, List.append_nil,
+      List.cons_append, List.nil_append, List.mem_cons, List.not_mem_nil, or_false] at hi
+    rcases hi with rfl | rfl | rfl <;> decide
+
+/-- **Accepted, given a non-zero Birkhoff determinant — for the executable model.**  If the rows of
+the set `S` form a square matrix (as many rows as the programme has columns) whose determinant, as
+computed by the model's `LinAlg.det` (mirror of `SquareMatrix.Determinant`, equal to `Matrix.det` by
+`Lemmas.GaussJordanDet.det_eq_matrix_det`), is non-zero, then the mirrored solver accepts `S`.  For
+`hierMSP` this is the "qualified ⇒ accepted" direction of `hier_statement` for minimal qualified
+sets, given the non-singularity that Tassa's Theorem 3 supplies. -/
+theorem model_accepts_of_det {F : Type} [Field F] [DecidableEq F] (m : MSP F) (S : List ℕ)
+    (hS : ∀ id ∈ S, id ∈ m.holders) (hpos : 0 < m.cols) (hsq : (m.sub S).length = m.cols)
+    (hw : ∀ row ∈ m.sub S, row.length = m.cols) (hdet : BronVerif.LinAlg.det (m.sub S) ≠ 0) :
+    m.accepts S = true :=
+  BronVerif.Lemmas.SharingBirkhoff.accepts_of_det_ne_zero m S hS hpos hsq hw hdet
+
+/-- non-vacuity: levels `{1}` (threshold 1), `{2}` (threshold 2) over `ZMod 7`: rows `(1,1)` (id 1,
+order 0) and `(0,1)` (id 2, order 1), determinant 1 -/
+example : (({ mat := [[1, 1], [0, 1]], cols := 2, holders := [1, 2] } : MSP (ZMod 7))).accepts [1, 2] = true :=
+  model_accepts_of_det _ [1, 2] (by decide) (by decide) (by decide +kernel) (by decide +kernel)
+    (by decide +kernel)
+
+/-- **Two levels, identifiers increasing from the first level to the second: the Birkhoff problem
+is unisolvent over ℝ** (iterated Rolle).  `xs`: nodes of the first level (derivative order 0), `ys`:
+nodes of the second level (order `t₀ ≤ |xs|`: a qualified set has at least `t₀` members of the first
+level), every `x` below every `y` — the ordering `CheckConstraints` demands.  The only polynomial of
+degree `< |xs| + |ys|` that vanishes at every `x` and whose `t₀`-th derivative vanishes at every `y`
+is 0; equivalently the square Birkhoff–Vandermonde matrix of the nodes is non-singular over ℝ, hence
+its integer determinant is non-zero.  This is the characteristic-0 half of Tassa's Theorem 3 for two
+levels; what remains of the named gap is (a) more than two levels and (b) the passage to `F_q`
+(`|det| < q` from the field-size condition, so the determinant stays non-zero modulo `q`). -/
+theorem hier_two_level_unisolvent (xs ys : Finset ℝ) (t₀ : ℕ) (ht : t₀ ≤ xs.card)
+    (hord : ∀ x ∈ xs, ∀ y ∈ ys, x < y) (f : ℝ[X]) (hdeg : f.natDegree < xs.card + ys.card)
+    (hx : ∀ x ∈ xs, f.eval x = 0) (hy : ∀ y ∈ ys, (derivative^[t₀] f).eval y = 0) : f = 0 :=
+  BronVerif.Lemmas.SharingBirkhoff.two_level_unisolvent xs ys t₀ ht hord f hdeg hx hy
+
+/-- non-vacuity: first level `{1, 2}`, second level `{3}` with order 2 (threshold vector (2,3)):
+a polynomial of degree `< 3` with `f(1) = f(2) = 0` and `f''(3) = 0` is zero -/
+example (f : ℝ[X]) (hdeg : f.natDegree < 3) (h1 : f.eval 1 = 0) (h2 : f.eval 2 = 0)
+    (h3 : (derivative^[2] f).eval 3 = 0) : f = 0 := by
+  refine hier_two_level_unisolvent {1, 2} {3} 2 (by norm_num) ?_ f (by norm_num; exact hdeg) ?_ ?_
+  · intro x hx y hy
+    simp only [Finset.mem_insert, Finset.mem_singleton] at hx hy
+    rcases hx with rfl | rfl <;> subst hy <;> norm_num
+  · intro x hx
+    simp only [Finset.mem_insert, Finset.mem_singleton] at hx
+    rcases hx with rfl | rfl <;> assumption
+  · intro y hy
+    simp only [Finset.mem_singleton] at hy
+    subst hy; exact h3
+
 end Partial
+
+/-! ## the executable scheme: dealing, reconstruction, linearity -/
+
+section ModelScheme
+open BronVerif.Access BronVerif.Sharing BronVerif.LinAlg
+variable {F : Type} [Field F] [DecidableEq F]
+
+/-- **Reconstruction, for the executable model** (`MSP.deal` = `kw.NewDealerFunc`, `λ = M·r`;
+`MSP.reconstruct` = `kw.Scheme.Reconstruct` with the reconstruction vector of the mirrored solver):
+for a programme whose rows all have `cols` entries, every set `S` the programme accepts reconstructs
+the dealt secret `r₀` from its shares, whatever the rest of the random column `r` is.  Together with
+`model_accepts_iff_qualified_threshold` / `lcw_holds` (accepted = qualified) this is "every qualified
+set reconstructs the dealt secret" for threshold and gate-tree policies on the definitions the
+driver runs. -/
+theorem model_reconstruct (m : MSP F) (S : List ℕ) (r : List F)
+    (hw : ∀ row ∈ m.mat, row.length = m.cols) (hr : r.length = m.cols) (hpos : 0 < m.cols)
+    (hacc : m.accepts S = true) : m.reconstruct S (m.deal r) = some (r.getD 0 0) :=
+  BronVerif.Lemmas.SharingDeal.reconstruct_deal m S r hw hr hpos hacc
+
+/-- **Adding shares, for the executable model**: the share vector of `r + r'` is the sum of the share
+vectors, and an accepted set reconstructs `r₀ + r'₀` from the added shares. -/
+theorem model_share_add (m : MSP F) (S : List ℕ) (r r' : List F)
+    (hw : ∀ row ∈ m.mat, row.length = m.cols) (hr : r.length = m.cols) (hr' : r'.length = m.cols)
+    (hpos : 0 < m.cols) (hacc : m.accepts S = true) :
+    vadd (m.deal r) (m.deal r') = m.deal (vadd r r') ∧
+      m.reconstruct S (vadd (m.deal r) (m.deal r')) = some (r.getD 0 0 + r'.getD 0 0) := by
+  have hadd := BronVerif.Lemmas.SharingDeal.deal_add m r r' (hr.trans hr'.symm)
+  refine ⟨hadd.symm, ?_⟩
+  rw [← hadd, model_reconstruct m S (vadd r r') hw (by simp [vadd, hr, hr']) hpos hacc]
+  congr 1
+  cases r with
+  | nil => simp at hr; omega
+  | cons a r =>
+    cases r' with
+    | nil => simp at hr'; omega
+    | cons b r' => simp [vadd]
+
+/-- **Scaling shares, for the executable model**: the share vector of `k·r` is `k` times the share
+vector, and an accepted set reconstructs `k·r₀` from the scaled shares. -/
+theorem model_share_smul (m : MSP F) (S : List ℕ) (k : F) (r : List F)
+    (hw : ∀ row ∈ m.mat, row.length = m.cols) (hr : r.length = m.cols)
+    (hpos : 0 < m.cols) (hacc : m.accepts S = true) :
+    vsmul k (m.deal r) = m.deal (vsmul k r) ∧
+      m.reconstruct S (vsmul k (m.deal r)) = some (k * r.getD 0 0) := by
+  have hsm := BronVerif.Lemmas.SharingDeal.deal_smul m k r
+  refine ⟨hsm.symm, ?_⟩
+  rw [← hsm, model_reconstruct m S (vsmul k r) hw (by simp [vsmul, hr]) hpos hacc]
+  congr 1
+  cases r with
+  | nil => simp at hr; omega
+  | cons a r => simp [vsmul]
+
+/-- **Privacy, for the executable model.**  If the programme rejects the set `S` of row owners
+(`MSP.accepts S = false`: the mirrored solver, complete by `Props.C20.solveLeft_complete`, finds no
+combination of the rows of `S` equal to `e₀` — by `model_accepts_iff_qualified_threshold` /
+`lcw_holds` these are exactly the unqualified sets of threshold and gate-tree policies), then for
+every candidate secret `s'` there is a random column `r'` with first entry `s'` that deals to `S`
+exactly the shares `S` received from `r`: the shares `S` owns are consistent with every secret. -/
+theorem model_privacy (m : MSP F) (S : List ℕ) (r : List F) (hS : ∀ id ∈ S, id ∈ m.holders)
+    (hr : r.length = m.cols) (hpos : 0 < m.cols) (hrej : m.accepts S = false) (s' : F) :
+    ∃ r' : List F, r'.length = m.cols ∧ r'.getD 0 0 = s' ∧
+      BronVerif.Access.pick (m.deal r') (m.rowsOf S) = BronVerif.Access.pick (m.deal r) (m.rowsOf S) := by
+  -- a kernel column for the rows of S
+  obtain ⟨k, hklen, hk0, hker⟩ : ∃ k : List F, k.length = m.cols ∧ k.getD 0 0 = 1 ∧
+      ∀ row ∈ m.sub S, dot row k = 0 := by
+    by_cases hne : m.rowsOf S = []
+    · refine ⟨unitVec m.cols 0, by simp [unitVec], ?_, ?_⟩
+      · simp [unitVec, List.getD_eq_getElem?_getD, List.getElem?_range hpos]
+      · intro row hrow
+        simp [MSP.sub, hne, BronVerif.Access.pick] at hrow
+    · have hnone : solveLeft (m.sub S) m.cols (unitVec m.cols 0) = none := by
+        have h1 : (S.any fun id => !m.holders.contains id) = false := by
+          simp only [List.any_eq_false, Bool.not_eq_eq_eq_not]
+          intro id hid
+          simpa using hS id hid
+        have h2 : (m.rowsOf S).isEmpty = false := by
+          cases h : m.rowsOf S with
+          | nil => exact absurd h hne
+          | cons _ _ => rfl
+        unfold MSP.accepts MSP.reconVector at hrej
+        simp only [h1, h2, Bool.false_eq_true, if_false, MSP.target] at hrej
+        cases hs : solveLeft (m.sub S) m.cols (unitVec m.cols 0) with
+        | none => rfl
+        | some x => rw [hs] at hrej; simp at hrej
+      exact BronVerif.Lemmas.SharingPrivacy.kernel_of_solveLeft_none (m.sub S) m.cols hpos hnone
+  refine ⟨vadd r (vsmul (s' - r.getD 0 0) k), by simp [vadd, vsmul, hr, hklen], ?_, ?_⟩
+  · cases r with
+    | nil => simp at hr; omega
+    | cons a r =>
+      cases k with
+      | nil => simp at hklen; omega
+      | cons b k =>
+        simp only [List.getD_cons_zero] at hk0
+        simp [vadd, vsmul, hk0]
+  · have hpick : ∀ x : List F, BronVerif.Access.pick (m.deal x) (m.rowsOf S) =
+        (m.sub S).map fun row => dot row x := by
+      intro x
+      unfold MSP.deal LinAlg.mulVec MSP.sub
+      exact BronVerif.Lemmas.SharingDeal.pick_map _ _ _
+    rw [hpick, hpick]
+    refine List.map_congr_left fun row hrow => ?_
+    unfold vadd vsmul
+    rw [BronVerif.Lemmas.SharingDeal.dot_add_right row r _ (by simp [hr, hklen]),
+      BronVerif.Lemmas.SharingDeal.dot_smul_right, hker row hrow]
+    ring
+
+/-- the (2,3) threshold programme over `ZMod 7` as the model represents it -/
+def m23 : MSP (ZMod 7) := { mat := [[1, 1], [1, 2], [1, 3]], cols := 2, holders := [1, 2, 3] }
+
+example : m23.reconstruct [1, 3] (m23.deal [4, 5]) = some 4 :=
+  model_reconstruct m23 [1, 3] [4, 5] (by decide) rfl (by decide) (by decide +kernel)
+
+example : m23.reconstruct [2, 3] (vadd (m23.deal [4, 5]) (m23.deal [6, 1])) = some (4 + 6) :=
+  (model_share_add m23 [2, 3] [4, 5] [6, 1] (by decide) rfl rfl (by decide) (by decide +kernel)).2
+
+example : m23.reconstruct [1, 2] (vsmul 3 (m23.deal [4, 5])) = some (3 * 4) :=
+  (model_share_smul m23 [1, 2] 3 [4, 5] (by decide) rfl (by decide) (by decide +kernel)).2
+
+/-- non-vacuity: holder 2 alone is rejected by the (2,3) programme; its share of `[4,5]` is also its
+share of some column with secret `6` -/
+example : ∃ r' : List (ZMod 7), r'.length = 2 ∧ r'.getD 0 0 = 6 ∧
+    BronVerif.Access.pick (m23.deal r') (m23.rowsOf [2]) = BronVerif.Access.pick (m23.deal [4, 5]) (m23.rowsOf [2]) :=
+  model_privacy m23 [2] [4, 5] (by decide) rfl (by decide) (by decide +kernel) 6
+
+end ModelScheme
 
 section Insertion
 variable {F : Type*} [Field F] {ρ δ ι : Type*} [Fintype ρ] [Fintype δ] [Fintype ι] [DecidableEq ρ]
@@ -422,8 +946,9 @@ programmes and arbitrary `t`-of-`n` gates, hence for any AND/OR/threshold nestin
 leaves*): after replacing row `z₀` by a `t`-of-children gate (`lcwInsert`, one iteration of
 `boolexpr.convert`), the rows `R` (not containing `z₀`) together with the children `K` span the
 target iff, in the old programme, `R` together with `z₀` — usable exactly when at least `t`
-children are present — spans it.  Missing for `lcw_statement`: the induction over `lcwRun` on the
-list-based model and the case of one shareholder labelling several leaves. -/
+children are present — spans it.  (Mathlib-matrix form of one step; the induction over `lcwRun` on the
+list-based model, including shareholders labelling several leaves, is `lcw_holds`, whose step is the
+list form `Lemmas.SharingInsert.insert_spans` of this lemma.) -/
 theorem lcw_insertion_partial (M : Matrix ρ δ F) (z : δ) (z₀ : ρ) (x : ι → F) (hx : Function.Injective x)
     (hx0 : ∀ i, x i ≠ 0) (t : ℕ) (ht : 0 < t) (R : Finset ρ) (hR : z₀ ∉ R) (K : Finset ι) :
     (∃ c' : ρ ⊕ ι → F, (∀ r ∉ R, c' (.inl r) = 0) ∧ (∀ i ∉ K, c' (.inr i) = 0) ∧
